@@ -19,7 +19,7 @@ ENTRIES = [
     B('regress-waiter', "        try:\n            connection = yield from host_pool.acquire()\n        finally:\n",
       "        try:\n            connection = yield from host_pool.acquire()\n        except KeyError:\n", 'C12-D2'),
     B('bound-le', "elif len(self.busy) < self.max_connections:", "elif len(self.busy) <= self.max_connections:", 'C12-D3'),
-    B('no-notify', "            self._condition.notify()\n", "", 'C12-D4'),
+    B('no-notify', "                self.ready.add(connection)\n\n            self._condition.notify()\n", "                self.ready.add(connection)\n", 'C12-D4'),
     B('notify-before-add', "            if reuse:\n                self.ready.add(connection)\n\n            self._condition.notify()\n",
       "            self._condition.notify()\n\n            if reuse:\n                self.ready.add(connection)\n", None),
     B('busy-add-early', "        try:\n            while True:\n                if self.ready:", "        try:\n            self.busy.add(None)\n            while True:\n                if self.ready:", 'C12-D3'),
@@ -45,5 +45,11 @@ ENTRIES = [
       "        with (yield from self._condition):\n            self.busy.remove(connection)\n\n            if reuse:\n                self.ready.add(connection)\n\n            self._condition.notify()"),
     N('bound-flipped', "elif len(self.busy) < self.max_connections:", "elif self.max_connections > len(self.busy):"),
     N('logging-in-region', "            self.busy.add(connection)\n        finally:", "            self.busy.add(connection)\n            _logger.debug('busy %s', len(self.busy))\n        finally:"),
-    N('notify-all', "            self._condition.notify()\n", "            self._condition.notify_all()\n"),
+    N('notify-all', "                self.ready.add(connection)\n\n            self._condition.notify()\n", "                self.ready.add(connection)\n\n            self._condition.notify_all()\n"),
+    B('regress-cancelled-waiter-renotify', "                    try:\n                        yield from self._condition.wait()\n                    except asyncio.CancelledError:\n                        # The wake-up may already have been given to this\n                        # waiter; pass it on instead of losing it.\n                        self._condition.notify()\n                        raise\n", "                    yield from self._condition.wait()\n", 'C12-D8'),
+    B('regress-release-shield', "                yield from asyncio.shield(release_task)", "                yield from release_task", 'C12-D8'),
+    B('regress-proxy-release-on-failure', "            connection.close()\n            super().no_wait_release(connection)\n            raise\n", "            raise\n", 'C12-D8', 'wpull/proxy/client.py'),
+    B('regress-proxy-acquire-return', "        connection = yield from self.acquire_proxy(\n            host, port, use_ssl=use_ssl, host_key=host_key)\n\n        return connection\n", "        yield from self.acquire_proxy(\n            host, port, use_ssl=use_ssl, host_key=host_key)\n", 'C12-D8', 'wpull/proxy/client.py'),
+    N('cancelled-waiter-renotify-base-exception', "                    except asyncio.CancelledError:\n", "                    except BaseException:\n"),
+    N('proxy-release-before-close', "            connection.close()\n            super().no_wait_release(connection)\n            raise\n", "            super().no_wait_release(connection)\n            connection.close()\n            raise\n", 'wpull/proxy/client.py'),
 ]
